@@ -6,6 +6,7 @@ representation invariant "between two calls", one calculate(batch) with an arbit
 from esrally import metrics, track
 from esrally.driver import driver
 
+from harness.common import concrete
 from symx import core
 from symx.core import fresh_bool, fresh_int, fresh_real, implies, observe, s_and, s_or, shadowed
 from symx.explore import Harness
@@ -83,12 +84,19 @@ def carry_step(sl):
             # carried samples were seen: no later than start+interval, and their type did not exceed the state's
             core.assume(s_and(s.absolute_time - start <= interval, s.sample_type <= stype))
         batch = _samples("b", nb, start)
+        # big slices are split by whether given samples did any work (the two cases cover every value): more, smaller slices for the 16 cores
+        for key, smp in (("b0_worked", batch[0] if batch else None), ("u0_worked", carried[0] if carried else None), ("b1_worked", batch[1] if len(batch) > 1 else None)):
+            if key in sl and smp is not None:
+                core.assume(smp.total_ops > 0 if sl[key] else smp.total_ops == 0)
         tc, st = _state(TASK, stype, start)
         st.unprocessed = list(carried)
         st.total_count = total
         st.interval = interval
         st.bucket = bucket
         st.has_samples_in_sample_type = has
+        # the unit of the work counted so far is part of the carried state
+        state_unit = "docs" if sl.get("_w", 0) >= 4 else ["ops", "docs"][concrete(fresh_int("unit_of_the_work_counted_so_far", 0, 1))]
+        st.ops_unit = state_unit
         seen = total
         for s in carried + batch:
             seen = seen + s.total_ops
@@ -96,7 +104,7 @@ def carry_step(sl):
         # both tasks, or alternating shipments of two workers): they must not affect what is counted for this task
         mixed = list(batch)
         if nb >= 2:
-            other = S(fresh_real("other_t"), fresh_int("other_ops", 0), 1, 0, "other", unit="ops")
+            other = S(0.5, 3, 1, 0, "other", unit="ops")  # concrete: the other task's own accounting is not under test here
             other.task = TASK_B
             mixed.insert(1, other)
         out = tc.calculate(mixed, bucket_interval_secs=BI)
@@ -112,7 +120,12 @@ def carry_step(sl):
         prev_type = stype
         for k, tp in enumerate(tuples):
             t_abs, _, t_type, value, unit = tp
-            observe("tuple %d unit is '<ops unit>/s' of the sample it is reported for" % k, unit == _unit_of(t_abs, everything))
+            # the unit of a value is the unit in which the task's operations are counted - never the unit of a request that did no work
+            # (a failed request under on-error=continue is recorded as 0 "ops") while the value counts documents
+            worked = [s_and(x.total_ops > 0, x.absolute_time <= t_abs) for x in everything]
+            nothing_yet = value == 0  # a value that counts no work at all (only failed requests so far) may carry any of the units seen
+            observe("tuple %d unit is '<ops unit>/s': the unit of work that was counted, not of a request that did none" % k,
+                    s_or(nothing_yet, s_and(total > 0, unit == "%s/s" % state_unit), *[s_and(w, unit == "%s/s" % x.total_ops_unit) for w, x in zip(worked, everything)]))
             observe("tuple %d value >= 0" % k, value >= 0)
             observe("tuple %d sample type does not regress" % k, t_type >= prev_type)
             prev_type = t_type
@@ -282,7 +295,19 @@ def _carry_slices(tier):
         for b in range(1, m + 1):
             if u + b >= 4:
                 # split the big slices by the (symbolic elsewhere) state type / flag for parallelism
-                out += [{"carried": u, "new": b, "stype": st, "has": h, "_w": u + b} for st in (0, 1) for h in (False, True)]
+                for st in (0, 1):
+                    for h in (False, True):
+                        for w0 in (False, True):
+                            for w1 in ((False, True) if u >= 1 else (None,)):
+                                for w2 in ((False, True) if b >= 2 else (None,)):
+                                    sl = {"carried": u, "new": b, "stype": st, "has": h, "b0_worked": w0, "_w": u + b}
+                                    if w1 is not None:
+                                        sl["u0_worked"] = w1
+                                    if w2 is not None:
+                                        sl["b1_worked"] = w2
+                                    out.append(sl)
+            elif u + b == 3:
+                out += [{"carried": u, "new": b, "b0_worked": w0, "_w": u + b} for w0 in (False, True)]
             else:
                 out.append({"carried": u, "new": b, "_w": u + b})
     return out
@@ -291,7 +316,7 @@ def _carry_slices(tier):
 READS = [driver.ThroughputCalculator.calculate, driver.ThroughputCalculator.calculate_task_throughput,
          driver.ThroughputCalculator.map_task_throughput, driver.ThroughputCalculator.TaskStats]
 
-BUDGET = {"quick": 150, "thorough": 2400}
+BUDGET = {"quick": 240, "thorough": 2400}
 
 HARNESSES = [
     Harness("carry_step", carry_step, "symbolic", _carry_slices, reads=READS,
